@@ -5,12 +5,13 @@ import sys
 
 from . import alias, knobs, ops, pools
 from .common import canon, digest, is_adaptix_file, short_file
-from .sig import sig_value
+from .sig import sig_value, tname
 
 mon = sys.monitoring
 TOOL = 3
 
 NAME = "histsim"
+STABLE_KEY_FIELDS = ("class", "arg_type")   # key fields that do not depend on minimisation
 
 
 class SimInterrupt(BaseException):
@@ -79,9 +80,10 @@ FAMILY_W = [6, 3, 2, 3, 1, 1, 2, 3, 3, 5, 1]
 C11_RECIPES = ["plain", "plain", "plain", "nm_camel", "nm_camel_shared", "nm_as_list", "nm_omit_default", "nm_extra_forbid",
                "nm_extra_collect", "chain_node_children", "chain_int_last", "chain_int_shared", "scoped_int",
                "scoped_node_value", "scoped_linked_head", "enum_by_name", "validator_inner", "dumper_int_str", "dumper_scoped",
-               "asis_m2", "unsupported_fix", "nm_snake_only", "chain_int_first", "nm_extra_forbid_all"]
+               "asis_m2", "unsupported_fix", "nm_snake_only", "chain_int_first", "nm_extra_forbid_all", "flag_names"]
 REPLACE_OPTS = [{"strict_coercion": True}, {"strict_coercion": False}, {"debug_trail": "ALL"}, {"debug_trail": "FIRST"},
                 {"debug_trail": "DISABLE"}, {"hide_traceback": False}, {"strict_coercion": False, "debug_trail": "FIRST"}]
+CONV_CALL_RECIPES = ["link_b_c", "link_a_c", "coerce_int_str", "coerce_int_hash", "link_title"]
 CREATION_OPS = ("load", "dump", "get_loader", "get_dumper", "get_converter", "convert")
 
 
@@ -106,7 +108,7 @@ def gen_c11(seed, cfg=None):  # noqa: C901, PLR0912, PLR0915
     morph = [0]
     conv = []
     if rng.random() < 0.25:
-        handles.append({"base": "ConversionRetort", "recipe": rng.choice(["plain", "plain", "link_title"])})
+        handles.append({"base": "ConversionRetort", "recipe": rng.choice(["plain", "plain", "link_title", "coerce_int_str"])})
         conv.append(len(handles) - 1)
     if rng.random() < 0.12:
         handles.append({"base": "global_morphing", "recipe": "plain"})
@@ -116,6 +118,7 @@ def gen_c11(seed, cfg=None):  # noqa: C901, PLR0912, PLR0915
         conv.append(len(handles) - 1)
     n_handles = len(handles)
     bases = [h["base"] for h in handles]
+    conv_focus = rng.sample(sorted(pools.CONVERTERS), 2)
     n_ops = rng.randint(2, 14)
     prog = []
     callables = []   # (kind, type or conv)
@@ -125,14 +128,16 @@ def gen_c11(seed, cfg=None):  # noqa: C901, PLR0912, PLR0915
 
     for _ in range(n_ops):
         r = rng.random()
-        if conv and r < 0.22:
+        if conv and r < 0.35:
             h = rng.choice(conv)
-            c = rng.choice(sorted(pools.CONVERTERS))
+            c = rng.choice(conv_focus) if rng.random() < 0.7 else rng.choice(sorted(pools.CONVERTERS))
             if rng.random() < 0.5:
                 op = {"op": "get_converter", "h": h, "conv": c}
                 callables.append(("get_converter", c))
             else:
                 op = {"op": "convert", "h": h, "conv": c, "o": rng.choice(pools.CONVERTERS[c][2])}
+            if rng.random() < 0.45:
+                op["rcp"] = rng.choice(CONV_CALL_RECIPES)   # per-call recipe: get_converter(..., recipe=[...])
         elif r < 0.10 and callables:
             j = rng.randrange(len(callables))
             k, ct = callables[j]
@@ -193,10 +198,12 @@ C20_TYPES = ["ListInt", "ListListInt", "DictStrListInt", "DDictStrListInt", "Set
              "Any", "object", "DictStrAny", "bytearray", "BytesIO", "IOBytes", "NT", "ListNT", "Inner", "WithAny", "WithExtra",
              "WithDefaults", "KwModel", "StreamHolder", "TD", "AT", "M1", "Node", "Holder", "Outer1", "GListInt", "MapStrInt",
              "MapStrListInt", "MMapStrListInt", "SeqListInt", "IterListInt", "TupListDict", "TupListEll", "DequeInt", "DictStrM1",
-             "DictStrNode", "ListM1", "Tree", "LinkedInt", "SetTupInt", "PM", "SnakeCase", "DDictStrInt", "TupIntEll"]
+             "DictStrNode", "ListM1", "Tree", "LinkedInt", "SetTupInt", "PM", "SnakeCase", "DDictStrInt", "TupIntEll", "Perm", "M2",
+             "ULM1LM2", "UDM1DM2"]
 C20_RECIPES = ["plain", "plain", "nm_extra_collect", "nm_extra_collect", "nm_omit_default", "nm_as_list", "nm_camel",
-               "nm_extra_forbid", "validator_inner", "chain_node_children"]
-C20_CONV = ["Outer", "OuterSame", "Inner", "InnerSame", "ListInner", "GIntGInt", "OptInner", "DictInner", "InnerTags", "M1M2"]
+               "nm_extra_forbid", "validator_inner", "chain_node_children", "flag_names", "flag_names"]
+C20_CONV = ["Outer", "OuterSame", "Inner", "InnerSame", "ListInner", "GIntGInt", "OptInner", "DictInner", "InnerTags", "M1M2",
+            "CLink", "M1Str"]
 
 
 def gen_c20(seed, cfg=None):  # noqa: C901, PLR0912
@@ -222,6 +229,8 @@ def gen_c20(seed, cfg=None):  # noqa: C901, PLR0912
                 callables.append(("get_converter", c))
             else:
                 op = {"op": "convert", "h": 1, "conv": c, "o": rng.choice(pools.CONVERTERS[c][2])}
+            if c in ("CLink", "M1Str") and rng.random() < 0.8:
+                op["rcp"] = rng.choice(["link_b_c", "link_a_c"] if c == "CLink" else ["coerce_int_str", "coerce_int_hash"])
         elif r < 0.48 and callables:
             j = rng.randrange(len(callables))
             k, ct = callables[j]
@@ -319,12 +328,12 @@ def _do(retort, d):
         return outcome(retort.get_dumper, pools.TYPES[d["t"]])
     if kind == "get_converter":
         src, dst, _ = pools.CONVERTERS[d["conv"]]
-        return outcome(retort.get_converter, src, dst)
+        return outcome(ops._get_converter, retort, src, dst, d.get("rcp"))
     if kind == "convert":
-        return outcome(retort.convert, pools.obj(d["o"]), pools.CONVERTERS[d["conv"]][1])
+        return outcome(ops._convert, retort, pools.obj(d["o"]), pools.CONVERTERS[d["conv"]][1], d.get("rcp"))
     if kind == "convert_call":
         src, dst, _ = pools.CONVERTERS[d["conv"]]
-        out, fn = outcome(retort.get_converter, src, dst)
+        out, fn = outcome(ops._get_converter, retort, src, dst, d.get("rcp"))
         return outcome(fn, pools.obj(d["o"])) if out[0] == "ok" else (out, None)
     raise ValueError(d)
 
@@ -435,7 +444,7 @@ def execute(scn, refs):  # noqa: C901, PLR0912, PLR0915
                 stats["alias_checks"] += 1
                 if after != arg_snap:
                     violations.append({"class": "argument-mutated", "op_index": i, "op": op, "expected": arg_snap,
-                                       "observed": after, "interrupted": bool(fired_here)})
+                                       "observed": after, "interrupted": bool(fired_here), "arg_type": tname(type(arg))})
                 allowed = alias.allowed_shared(op if kind != "call" else _call_as_op(world, op), arg,
                                                recipes_of[plain[i].get("h", 0)] if kind != "call" else
                                                _call_recipes(world, op, recipes_of))
@@ -666,14 +675,14 @@ def prelim_key(scn, result):
     v = result["violations"][0]
     op = v.get("op") or {}
     return {"class": v["class"], "op": op.get("op"), "type": op.get("t") or op.get("conv"),
-            "fault": bool(result.get("fired"))}
+            "fault": bool(result.get("fired")), "arg_type": v.get("arg_type")}
 
 
-def finding_key(scn, result):
-    v = result["violations"][0]
+def finding_key(scn, result, v=None):
+    v = v or result["violations"][0]
     op = v.get("op") or {}
     return {"class": v["class"], "op": op.get("op"), "type": op.get("t") or op.get("conv"), "types": _types_of(scn),
-            "op_kinds": [o["op"] for o in scn["ops"]], "faults": [f.get("exc", "base") for f in scn.get("faults", [])],
+            "arg_type": v.get("arg_type"), "op_kinds": [o["op"] for o in scn["ops"]], "faults": [f.get("exc", "base") for f in scn.get("faults", [])],
             "recipes": sorted({h.get("recipe", "plain") for h in scn["handles"]} | {
                 o["recipe"] for o in scn["ops"] if o["op"] == "extend"})}
 
